@@ -40,15 +40,21 @@ def site_ops(d, tag):
 
 
 def chain_desc(kind, dims, diss):
-    """kind: 'uncoupled' | 'zz' (all terms commute) | 'generic' (L=2 only)"""
+    """kind: 'uncoupled' | 'zz' (all terms commute) | 'generic' (L=2 only) | 'zz-hom' (commuting, every site and every
+    bond identical) | 'zz-hom0' (the same without single-site Hamiltonians)"""
     L = len(dims)
+    hom = kind.startswith("zz-hom")
+    kind0 = kind
+    if hom:
+        kind = "zz"
     desc = {"dims": list(dims), "site_h": [], "site_l": [], "nn_h": [], "nn_l": []}
     for s, d in enumerate(dims):
         if kind == "zz":
-            h = np.diag(np.linspace(0.4 + 0.1 * s, -0.3, d)).astype(complex)
+            h = np.diag(np.linspace(0.4 + (0.0 if hom else 0.1 * s), -0.3, d)).astype(complex)
         else:
             h = site_ops(d, s + 1)
-        desc["site_h"].append((s, h))
+        if kind0 != "zz-hom0":
+            desc["site_h"].append((s, h))
         if diss and kind != "zz":
             a = np.diag(np.ones(d - 1), 1).astype(complex)
             desc["site_l"].append((s, a, 0.15 + 0.05 * s))
@@ -279,6 +285,13 @@ def exact_cases(tier):
         L = len(dims)
         for ptk in (["none"] * L, ["none", "ancilla"] + ["none"] * (L - 2)):
             out.append(("zz", dims, diss, tuple(ptk), order, 3))
+    # homogeneous chains: all sites and all bonds identical (several bonds with byte-identical Liouvillians)
+    for (kind, dims), diss, order in itertools.product([("zz-hom0", (2, 2, 2)), ("zz-hom0", (2, 2, 2, 2)), ("zz-hom", (2,) * 5),
+                                                         ("zz-hom", (3, 3, 3, 3))], [False, True], [1, 2]):
+        L = len(dims)
+        out.append((kind, dims, diss, tuple(["none"] * L), order, 3))
+        if dims[0] == 2:
+            out.append((kind, dims, diss, tuple(["none", "ancilla"] + ["none"] * (L - 2)), order, 3))
     return out
 
 
